@@ -49,10 +49,23 @@ SITE = {
     ("[k]", "wrongkey"): ['assert snapshot({"b": 5})["a"] == 5'],
     ("[k]", "loopbad"): ['s = snapshot({"a": 5})', 'for k in ("a", "b"):', "    assert s[k] == 5"],
     ("[k]", "loopgood"): ['s = snapshot({"a": 5, "b": 5})', 'for k in ("a", "b"):', "    assert s[k] == 5"],
+    # evaluated in code that has no source (nothing can be rewritten, the counters must still work)
+    ("==", "nosrcgood"): ["assert 5 == eval('snapshot(5)')"],
+    ("==", "nosrcwrong"): ["assert 5 == eval('snapshot(4)')"],
+    ("==", "nosrcempty"): ["assert 5 == eval('snapshot()')"],
+    ("<=", "nosrcwrong"): ["assert 5 <= eval('snapshot(3)')"],
+    ("in", "nosrcwrong"): ["assert 5 in eval('snapshot([4])')"],
+    ("[k]", "nosrcwrong"): ["assert eval(\"snapshot({'a': 4})\")['a'] == 5"],
+    # compared in another thread started (and joined) by the test
+    ("==", "threadgood"): ["import threading", "r = []", "t = threading.Thread(target=lambda: r.append(5 == snapshot(5)))", "t.start()", "t.join()", "assert r[0]"],
+    ("==", "threadwrong"): ["import threading", "r = []", "t = threading.Thread(target=lambda: r.append(5 == snapshot(4)))", "t.start()", "t.join()", "assert r[0]"],
+    ("==", "threadempty"): ["import threading", "r = []", "t = threading.Thread(target=lambda: r.append(5 == snapshot()))", "t.start()", "t.join()", "assert r[0]"],
+    ("<=", "threadempty"): ["from concurrent.futures import ThreadPoolExecutor", "with ThreadPoolExecutor(1) as ex:", "    assert ex.submit(lambda: 5 <= snapshot()).result()"],
+    ("in", "threadwrong"): ["from concurrent.futures import ThreadPoolExecutor", "with ThreadPoolExecutor(1) as ex:", "    assert ex.submit(lambda: 5 in snapshot([4])).result()"],
     ("[k]<=", "wrong"): ['assert 8 <= snapshot({"a": 5})["a"]'],
     ("[k]in", "wrong"): ['assert 8 in snapshot({"a": [5]})["a"]'],
 }
-BAD = {"wrong", "empty", "wrongkey", "loopbad", "loopbadlast", "wrongnested"}
+BAD = {"wrong", "empty", "wrongkey", "loopbad", "loopbadlast", "wrongnested", "nosrcwrong", "nosrcempty", "threadwrong", "threadempty"}
 OPS = ("==", "<=", ">=", "in", "[k]")
 
 
